@@ -34,8 +34,12 @@ def leaf_hash(kind, v):
     if kind == 'var':
         return h2(v.ljust(32, b'\0'), len(v).to_bytes(32, 'little'))
     if kind == 'nest':
-        ch = [v[32 * i:32 * (i + 1)].ljust(32, b'\0') for i in range(4)]
-        return h2(h2(h2(ch[0], ch[1]), h2(ch[2], ch[3])), (len(v) // 8).to_bytes(32, 'little'))
+        layer = [v[32 * i:32 * (i + 1)].ljust(32, b'\0') for i in range((len(v) + 31) // 32)]
+        for d in range(8):
+            if len(layer) % 2:
+                layer.append(zero_hash(d))
+            layer = [h2(layer[i], layer[i + 1]) for i in range(0, len(layer), 2)] or [zero_hash(d + 1)]
+        return h2(layer[0], (len(v) // 8).to_bytes(32, 'little'))
     raise ValueError(kind)
 
 
